@@ -34,7 +34,7 @@ Quiesce ==
        THEN /\ Ev.listed /\ Ev.count = 1 /\ ~Ev.clienteof
             /\ Cardinality(enters) = NPipe                              \* handled exactly once
             /\ Ev.authreplies = 1 /\ Ev.callreplies = (IF cfg.pipe \in {"call", "callpush"} THEN 1 ELSE 0)
-       ELSE /\ ~Ev.listed /\ Ev.count = 0 /\ Ev.clienteof /\ Ev.serverclosed   \* closed by the server, not listed
+       ELSE /\ ~Ev.listed /\ Ev.count = 0 /\ Ev.clienteof /\ Ev.serverclosed   \* closed by the server, not listed (under any id)
             /\ enters = {} /\ hooks = 0 /\ Ev.callreplies = 0
   /\ UNCHANGED <<cfg, verdicts, authok, rejected, enters, hooks>> /\ Step
 Known == {"Reset", "AuthOK", "AuthFail", "HookReject", "Hook", "HEnter", "Quiesce", "ServeHang"}
